@@ -133,6 +133,20 @@ def rep_specs(r, max_depth=None):
             {"kind": "stack", "gene_length": r.choice([300, 400])}]
 
 
+def union_of_refined(d):
+    def walk(t, in_union):
+        if t[0] == "ann":
+            return in_union or walk(t[1], in_union)
+        if t[0] == "union":
+            return any(walk(x, True) for x in t[1])
+        if t[0] == "list":
+            return walk(t[1], in_union)
+        if t[0] == "tuple":
+            return any(walk(x, in_union) for x in t[1])
+        return False
+    return any(walk(t, False) for c in d["classes"] for t in c["fields"])
+
+
 def gen_ops(r, n):
     """a sequence of operations over a growing registry of genotypes"""
     ops, size = [["create"], ["create"]], 2
@@ -221,6 +235,11 @@ def gen_cases(r, tier, n_random=8):
     for _ in range(n_random if not big else 5 * n_random):
         d = grammars.gen_decl(r, {"weights": False, "tuples": True, "dependent": False})
         for rep in r.sample(rep_specs(r), 2):
+            if rep["kind"] == "dsge" and union_of_refined(d):
+                # dSGE keys its genes by the Union type object; with refined members under string annotations that object is rebuilt
+                # (and compares unequal) at every evaluation of the annotations, so every mapping adds a new key: outside the model
+                # (see DESIGN section 5, observed next to F15)
+                continue
             cases.append({"op": "rep", "decl": d, "rep": rep, "seed": r.randrange(10**6), "ops": gen_ops(r, 6)})
     return cases
 
